@@ -15,6 +15,7 @@ CONSTANTS MaxLenP = 4
 INIT Init
 NEXT NextSim
 INVARIANT PShape
+INVARIANT PInputs
 INVARIANT PNoCross
 INVARIANT PIdem
 INVARIANT PRefines
